@@ -228,8 +228,8 @@ def spaces(tier):
     sp = [
         Space("faults-depth1", gen_faults(1), check, variant="fast",
               describe="fault at top level and in every template's executed block x 8 error kinds x 6 handler placements"),
-        Space("histories", gen_hist(3 if tier == "quick" else 4), check_hist, variant="fast",
-              describe="all sequences of run kinds on one VM (10 kinds)"),
+        Space("histories", gen_hist(3 if tier == "quick" else 5), check_hist, variant="fast",
+              describe="all sequences of run kinds on one VM (10 kinds; length <=3 quick, <=5 thorough)"),
     ]
     if tier == "quick":
         sp.append(Space("faults-depth2-reduced", gen_faults(2, c02_interact(), ["type", "count-behaviour"], ["none", "except-inner", "try-inner"]), check,
